@@ -21,6 +21,9 @@ type Ctx struct {
 	// vertexEnv binds parameters of the helper / local literal whose edge site is being expanded to the arguments of
 	// the call site under consideration
 	vertexEnv map[*ssa.Parameter]ssa.Value
+
+	// innerField: for a nested field name of Func ("memo.result") the struct type and field it names
+	innerField map[string][2]string
 }
 
 // Engine is one rule family.
